@@ -27,6 +27,8 @@ use crate::radix;
 /// Write an special string to the buffer.
 #[inline(always)]
 fn write_special(bytes: &mut [u8], special: Option<&[u8]>, error: &'static str) -> usize {
+    #[cfg(lexical_verif)]
+    lexical_util::verif::hit(lexical_util::verif::WRITE_SPECIAL);
     // The NaN string must be <= 50 characters, so this should never panic.
     if let Some(special_str) = special {
         debug_assert!(special_str.len() <= 50, "special_str.len() must be <= 50");
